@@ -63,7 +63,7 @@ class Run:
     # ---- generate ------------------------------------------------------------------------------------------
     def generate(self, scn):
         d = self.ctx.tmp("mpig")
-        out = d / "mpi.hex"
+        out = d / ("mpi.app.v1.hex" if len(scn["vendor"]) % 2 else "mpi.hex")
         if scn.get("stale"):
             out.write_bytes(STALE)   # history: the output file exists already (left by an earlier invocation)
         v, c = scn["vendor"], scn["cls"]
@@ -117,7 +117,7 @@ class Run:
             core.through_link(f, (inp["seed"] + k) % 4 == 3)
             files.append(str(f))
             inputs.append([inp["off"], list(data)])
-        out = d / "merged.hex"
+        out = d / ("merged.area.0.hex" if len(scn["inputs"]) % 2 else "merged.hex")
         if scn.get("stale"):
             out.write_bytes(STALE)
         err = None
